@@ -280,7 +280,9 @@ ComposeClauses(c) ==
      Chk("compose:spec", c.compose.v = e.spec) \o
      Chk("compose:num_leaves-multiply", NumLeaves(c.compose.v) = NumLeaves(c.sa) * NumLeaves(c.sb)) \o
      Chk("compose:wellformed", WellFormed(c.compose.v.nodes)) \o
-     Chk("transform(leaf->s)=compose(s)", c.transform_leaf.err = "" /\ c.transform_leaf.v = c.compose.v)
+     \* "equals": the namespace of a leafless outer treespec is only merged by compose (the leaf function is never consulted)
+     Chk("transform(leaf->s)=compose(s)", c.transform_leaf.err = "" /\ SpecEq(c.transform_leaf.v, c.compose.v)
+                                            /\ c.transform_leaf.v.nodes = c.compose.v.nodes)
    ELSE <<>>) \o
   Chk("transform(id,id)=id", c.transform_id.err = "" /\ c.transform_id.v = c.sa)
 
